@@ -224,13 +224,13 @@ impl Property for C07 {
     }
     fn cases(&self, tier: Tier) -> u64 {
         match tier {
-            Tier::Quick => 4_000,
+            Tier::Quick => 100_000,
             Tier::Thorough => 10_000_000,
         }
     }
     fn min_nontrivial(&self, tier: Tier) -> u64 {
         match tier {
-            Tier::Quick => 2_500,
+            Tier::Quick => 50_000,
             Tier::Thorough => 5_000_000,
         }
     }
